@@ -391,6 +391,18 @@ pub fn transfer_account(group: Pubkey, old: Pubkey, new: Pubkey, authority: Pubk
         vec![],
     )
 }
+#[allow(clippy::too_many_arguments)]
+pub fn transfer_account_pda(group: Pubkey, old: Pubkey, authority: Pubkey, payer: Pubkey, new_authority: Pubkey, fee_wallet: Pubkey, idx: u16, third: Option<u16>) -> (Instruction, Pubkey) {
+    let new = account_pda(&group, &new_authority, idx, third);
+    (
+        mk(
+            marginfi::accounts::TransferToNewAccountPda { group, old_marginfi_account: old, new_marginfi_account: new, authority, fee_payer: payer, new_authority, global_fee_wallet: fee_wallet, instructions_sysvar: sysvar::instructions::ID, system_program: system_program::ID },
+            marginfi::instruction::TransferToNewAccountPda { account_index: idx, third_party_id: third },
+            vec![],
+        ),
+        new,
+    )
+}
 pub fn set_freeze(group: Pubkey, acct: Pubkey, admin: Pubkey, frozen: bool) -> Instruction {
     mk(marginfi::accounts::SetAccountFreeze { group, marginfi_account: acct, admin }, marginfi::instruction::MarginfiAccountSetFreeze { frozen }, vec![])
 }
